@@ -164,7 +164,7 @@ def rule_bijection(ctx):
                 got = ceval(f.get(name)) if f.get(name) is not None else None
                 n += 1
                 ctx.check(got == want, "%s:%s" % (C.short(key), name), "start position: %s = 0x%016x" % (name, want), sb.where(0), bad_what="start position %s in %s is %s, the standard start has 0x%016x" % (name, key, hex(got) if got is not None else None, want))
-    ctx.floor("bijection rows", n, 100)
+    ctx.floor("bijection rows", n, 60)     # 100+ on the reference tree; a constructor that delegates to another legitimately removes a table
 
 
 def blk_is_drop(t):
